@@ -352,7 +352,7 @@ fn all_counts() -> Vec<WriteCase> {
     out
 }
 
-fn seq_strategy() -> impl Strategy<Value = SeqCase> {
+pub fn seq_strategy() -> impl Strategy<Value = SeqCase> {
     let pool: Vec<&'static str> = vec!["ok", "error", "a", "b", "c", "n@h", "rex", "x@y", "undefined", "é", "true", "m", "f", "long_atom_name_1", "long_atom_name_2", ""];
     let atom = prop::sample::select(pool).prop_map(|s| Value::atom(s));
     let long_atom = (prop::sample::select(vec![256usize, 300]), prop::sample::select(vec!["L", "é", "中"])).prop_map(|(n, u)| Value::Atom(u.repeat(n / u.len() + 1)));
